@@ -122,19 +122,23 @@ End Rewrite.
      fx_bsq       C14_reject_backslash_before_quote    a backslash before a quote in a literal is refused
      fx_single    C16_single_table_fast_path_keywords  the single-table fast path needs exactly one FROM keyword and no JOIN keyword
      fx_cteq      C16_quoted_cte_declaration           a CTE declared with a quoted name is also known under its unquoted name
-     fx_quotes    C14_quote_scanning_backtick_estring  backticks are mapped only outside literals; any backslash-quote in E'..' refused *)
+     fx_quotes    C14_quote_scanning_backtick_estring  backticks are mapped only outside literals; any backslash-quote in E'..' refused
+     fx_fastname  C14_fast_path_name_seen_by_check     the single-table fast path is taken only for a name that starts like the names the
+                                                       permission check extracts (letter or underscore)
+     fx_reserved  C14_reserved_placeholder_text        request text containing a placeholder prefix of the transform is refused *)
 Record fixset := { fx_with : bool; fx_dedup : bool; fx_scanner : bool; fx_denylist : bool; fx_noraw : bool; fx_bsq : bool;
-                   fx_single : bool; fx_cteq : bool; fx_quotes : bool }.
+                   fx_single : bool; fx_cteq : bool; fx_quotes : bool; fx_fastname : bool; fx_reserved : bool }.
 Definition fx_none : fixset :=
   {| fx_with := false; fx_dedup := false; fx_scanner := false; fx_denylist := false; fx_noraw := false; fx_bsq := false;
-     fx_single := false; fx_cteq := false; fx_quotes := false |}.
+     fx_single := false; fx_cteq := false; fx_quotes := false; fx_fastname := false; fx_reserved := false |}.
 (* the code with every repair: the current source *)
 Definition fx_all : fixset :=
   {| fx_with := true; fx_dedup := true; fx_scanner := true; fx_denylist := true; fx_noraw := true; fx_bsq := true;
-     fx_single := true; fx_cteq := true; fx_quotes := true |}.
+     fx_single := true; fx_cteq := true; fx_quotes := true; fx_fastname := true; fx_reserved := true |}.
 Definition fx_of_bits (n : N) : fixset :=
   {| fx_with := N.testbit n 0; fx_dedup := N.testbit n 1; fx_scanner := N.testbit n 2; fx_denylist := N.testbit n 3;
-     fx_noraw := N.testbit n 4; fx_bsq := N.testbit n 5; fx_single := N.testbit n 6; fx_cteq := N.testbit n 7; fx_quotes := N.testbit n 8 |}.
+     fx_noraw := N.testbit n 4; fx_bsq := N.testbit n 5; fx_single := N.testbit n 6; fx_cteq := N.testbit n 7; fx_quotes := N.testbit n 8;
+     fx_fastname := N.testbit n 9; fx_reserved := N.testbit n 10 |}.
 
 (* ------------------------------------------------------------------------------------ *)
 (* 2. the four table patterns and the CTE pattern                                         *)
@@ -562,8 +566,20 @@ Definition fast_single_ok (kwd word : bool) (s : bytes) : bool :=
   let f := scan_features s in
   is_single_table kwd (lower s) && negb (with_test word (lower s)) && negb (contains_from_func s)
   && negb (f_quotes f) && negb (f_dash f) && negb (f_block f).
-Definition convert_hdr (q kwd word : bool) (s hdr : bytes) : bytes :=
-  if fast_single_ok kwd word s then convert_single s hdr
+(* (fx_fastname) isSingleTableQuery also wants the byte after FROM and its blanks to be a lower-case letter or an
+   underscore of the lower-cased text: what patternSimpleTable can start a name with *)
+Definition fast_name_start_ok (lo : bytes) : bool :=
+  match find_sub k_from_sp lo with
+  | Some i => match trim_left_set (fun c => (c =? 32) || (c =? 9) || (c =? 10)) (skipn (i + 5) lo) with
+              | c :: _ => (c =? 95) || in_range 97 122 c
+              | [] => true
+              end
+  | None => true
+  end.
+Definition fast_single_gen (kwd word fn : bool) (s : bytes) : bool :=
+  fast_single_ok kwd word s && (negb fn || fast_name_start_ok (lower s)).
+Definition convert_hdr (q kwd word fn : bool) (s hdr : bytes) : bytes :=
+  if fast_single_gen kwd word fn s then convert_single s hdr
   else let n := norm_p s in
        unmask (unmask_from (untok (passes_hdr q word (names_of (n_masks n)) hdr (n_toks n))) (n_fmasks n)) (n_masks n).
 
@@ -577,7 +593,7 @@ Definition route_of (noraw : bool) (s : bytes) : route :=
   else Transformed.
 Definition executed_text (fx : fixset) (s hdr : bytes) : bytes :=
   match route_of (fx_noraw fx) s with
-  | Transformed => match hdr with [] => convert_nohdr (fx_cteq fx) s | _ => convert_hdr (fx_cteq fx) (fx_single fx) (fx_with fx) s hdr end
+  | Transformed => match hdr with [] => convert_nohdr (fx_cteq fx) s | _ => convert_hdr (fx_cteq fx) (fx_single fx) (fx_with fx) (fx_fastname fx) s hdr end
   | _ => s
   end.
 
@@ -816,11 +832,15 @@ Definition bsq_mask (q : bool) (m : smask) : bool :=
 
 Inductive reject :=
 | RjEmpty | RjLong | RjMulti | RjDanger | RjIO (name : bytes) | RjStrPos | RjIdentPos (name : bytes)
-| RjHeader | RjCross | RjShowDb | RjBackslash.
+| RjHeader | RjCross | RjShowDb | RjBackslash | RjReserved.
 
+(* the placeholder spellings of internal/sql/mask.go anywhere in the request text (fx_reserved) *)
+Definition reserved_text (s : bytes) : bool :=
+  has_sub (s2b "__STR_") s || has_sub (s2b "__IDENT_") s || has_sub (s2b "__FROM_MASK_") s.
 Definition validate (fx : fixset) (s : bytes) : option reject :=
   if match trim_space s with [] => true | _ => false end then Some RjEmpty
   else if 10000 <? N.of_nat (length s) then Some RjLong
+  else if fx_reserved fx && reserved_text s then Some RjReserved
   else
     let '(v, vmasks) := norm_v (fx_quotes fx) s in
     if fx_bsq fx && existsb (bsq_mask (fx_quotes fx)) vmasks then Some RjBackslash
@@ -965,7 +985,7 @@ Definition reject_code (r : reject) : N * bytes :=
   match r with
   | RjEmpty => (1, []) | RjLong => (2, []) | RjMulti => (3, []) | RjDanger => (4, [])
   | RjIO n => (5, lower n) | RjStrPos => (6, []) | RjIdentPos n => (7, n)
-  | RjHeader => (8, []) | RjCross => (9, []) | RjShowDb => (10, []) | RjBackslash => (11, [])
+  | RjHeader => (8, []) | RjCross => (9, []) | RjShowDb => (10, []) | RjBackslash => (11, []) | RjReserved => (12, [])
   end.
 Definition ref_eqb (a b : ref) : bool := bytes_eqb (fst a) (fst b) && bytes_eqb (snd a) (snd b).
 Definition gate_case_agrees (c : gate_case) : bool :=
@@ -1212,7 +1232,7 @@ Definition case_header_ctes_ok (c : gate_case) : bool :=
   | _ => fx_with (case_fx c) || has_sub k_with_sp (lower (untok ts)) || match cte_names ts with [] => true | _ => false end
   end.
 Definition case_slow_path (c : gate_case) : bool :=
-  match g_hdr c with [] => true | _ => negb (fast_single_ok (fx_single (case_fx c)) (fx_with (case_fx c)) (g_sql c)) end.
+  match g_hdr c with [] => true | _ => negb (fast_single_gen (fx_single (case_fx c)) (fx_with (case_fx c)) (fx_fastname (case_fx c)) (g_sql c)) end.
 (* the oracle of C14 on the IMPLEMENTATION's observation: every measurement that DuckDB opened
    ([reads], measured by the harness) was permission-checked *)
 Definition reads_checked_exact (checked reads : list ref) : bool := forallb (covers_exact checked) reads.
@@ -1225,7 +1245,7 @@ Record read_case := { r_gate : gate_case; r_reads : list ref; r_existing : list 
 Definition ref_mem (r : ref) (l : list ref) : bool := existsb (ref_eqb r) l.
 Definition refs_subset (a b : list ref) : bool := forallb (fun r => ref_mem r b) a.
 (* with the repairs of the validator and without raw routes the guard "no literal names a file" is not needed *)
-Definition guards_repaired (fx : fixset) : bool := fx_scanner fx && fx_denylist fx && fx_noraw fx && fx_bsq fx && fx_quotes fx.
+Definition guards_repaired (fx : fixset) : bool := fx_scanner fx && fx_denylist fx && fx_noraw fx && fx_bsq fx && fx_quotes fx && fx_reserved fx.
 Definition read_case_in_domain (c : read_case) : bool :=
   let g := r_gate c in
   case_in_grammar g && (guards_repaired (case_fx g) || case_pathlike_free g) && case_header_ctes_ok g && case_slow_path g
